@@ -17,6 +17,10 @@ let fi_of = function
   | L [A "fi"; p; size; sec; ns; d; mime; etag] ->
     { i_path = str p; i_size = n_of_int (int_ size); i_mod = instant_of sec ns; i_dir = bool_ d;
       i_mime = str mime; i_etag = str etag }
+  | L [A "fi"; p; size; sec; ns; d; mime; etag; _zone] ->
+    (* the zone the backend's time.Time was expressed in: the same instant *)
+    { i_path = str p; i_size = n_of_int (int_ size); i_mod = instant_of sec ns; i_dir = bool_ d;
+      i_mime = str mime; i_etag = str etag }
   | _ -> raise (Parse_error "fi")
 
 let err_of = function
@@ -137,6 +141,9 @@ let () =
       bump ("transport_" ^ tr);
       let x = ext_of_tables (tables_of ext) in
       let script = List.map answer_of answers in
+      List.iter (fun a ->
+        let infos = (match a with AStat (_, FOk i) -> [i] | AReadDir (_, _, FOk l) -> l | _ -> []) in
+        List.iter (fun i -> bump (if wf_info x i then "info_in_domain" else "info_outside_domain")) infos) script;
       let fs = fs_of_script script in
       let ep = endpoint_path (str epp) in
       let calls = List.map call_of calls in
